@@ -72,7 +72,7 @@ def P0 : Prims where
     | .list xs, .int n => if 0 ≤ n then xs[n.toNat]? else none
     | _, _ => none
   slice _ _ _ _ := .error .invalidOperation
-  callKw _ _ _ _ := .error .invalidOperation
+  callKw _ _ ps ks := .ok (.list (ps ++ ks.map (·.2)))
   filter _ _ _ _ := .error (.named "UnknownFilter")
   test _ _ _ _ := .error (.named "UnknownTest")
   foldsVariant _ := true
@@ -91,10 +91,16 @@ theorem P0_lawful : P0.Lawful where
   pow := by intro a b v h; simp [P0] at h
   neg := by intro a v h; cases a <;> simp [P0] at h; subst h; simp
   concat := by intro a b; simp [P0]
-  contains := by intro a b v h; simp [P0] at h; subst h; simp
+  contains := by
+    intro a b v h
+    have h' : Except.ok (V.bool false) = (Except.ok v : Except Err V) := h
+    cases h'; simp
   mkMap := by intro ps; simp [P0]
   isTrue_bool := by intro b; simp [P0]
-  contains_bool := by intro a b v h; simp [P0] at h; exact ⟨false, h.symm⟩
+  contains_bool := by
+    intro a b v h
+    have h' : Except.ok (V.bool false) = (Except.ok v : Except Err V) := h
+    cases h'; exact ⟨false, rfl⟩
 
 def ρ0 : Env := fun x => if x = "v0" then some (.int 0) else if x = "v1" then some (.int 1) else none
 
@@ -265,6 +271,47 @@ theorem C04_holds : C04_full := by
   · intro err h
     exact (load_never_fails_on_const_error P hP m ρ e hw err h).2
 
+/-! ## static keyword arguments and the caller of a `{% call %}` block -/
+
+/-- The call of a call block (`{% call m(title="Hello") %}…{% endcall %}`) passes the user's keyword
+    arguments followed by the generated `caller` macro, also when every keyword value is a literal:
+    under the guard found in the source (`static_kwargs = caller.is_none()`) the emitted code equals
+    the run-time semantics, so literal and variable keyword values behave alike. -/
+theorem call_block_static_kwargs_keep_caller (P : Prims) (hP : P.Lawful)
+    (hs : P.codegenSpecial "static-kwargs-off-for-caller" = true) (m : Mode) (ρ : Env)
+    (name : String) (pos : Exprs) (kws : Kws) (caller : V) (hp : pos.WF) (hk : kws.WF) :
+    evalCallBlockC P m ρ name pos kws caller = evalCallBlockRt P m ρ name pos kws caller :=
+  evalCallBlock_eq m ρ hP hs name pos kws caller hp hk
+
+/-- … and hoisting literals of its arguments into variables changes nothing -/
+theorem call_block_hoist_transparent (P : Prims) (hP : P.Lawful)
+    (hs : P.codegenSpecial "static-kwargs-off-for-caller" = true) (m : Mode) (ρ : Env)
+    (name : String) (pos pos' : Exprs) (kws kws' : Kws) (caller : V) (hp : pos.WF) (hk : kws.WF)
+    (h1 : HoistList P ρ pos pos') (h2 : HoistKws P ρ kws kws') :
+    evalCallBlockC P m ρ name pos' kws' caller = evalCallBlockC P m ρ name pos kws caller := by
+  rw [evalCallBlock_eq m ρ hP hs name pos' kws' caller (hoistList_WF' ρ pos pos' hp h1) (hoistKws_WF' ρ kws kws' hk h2),
+    evalCallBlock_eq m ρ hP hs name pos kws caller hp hk]
+  exact evalCallBlock_hoist m ρ hP name pos pos' kws kws' caller hp hk h1 h2
+
+example : P0.codegenSpecial "static-kwargs-off-for-caller" = true := rfl
+
+/-- `m(title="Hello")` of a call block: the keyword map is `[title, caller]` -/
+example : evalCallBlockC P0 .lenient ρ0 "m" .nil (.cons "title" (.const (.str "Hello")) .nil) (.other 7)
+    = .ok (.list [.str "Hello", .other 7]) := by
+  simp [evalCallBlockC, evalCList, evalCKws, evalC, gate, P0]
+
+/-- without that guard (the seeded change C04-4: `static_kwargs = true`) the static path drops the
+    caller exactly when all keyword values are literals: the emitted code differs from the run-time
+    semantics, and from the same call with the literal hoisted -/
+theorem call_block_without_guard_drops_caller :
+    ∃ (P : Prims), P.Lawful ∧ P.codegenSpecial "static-kwargs-off-for-caller" = false ∧
+      ∃ m ρ name kws caller, kws.WF ∧
+        evalCallBlockC P m ρ name .nil kws caller ≠ evalCallBlockRt P m ρ name .nil kws caller := by
+  refine ⟨{ P0 with codegenSpecial := fun s => s != "static-kwargs-off-for-caller" }, ?_, by decide, .lenient, ρ0, "m",
+    .cons "title" (.const (.str "Hello")) .nil, .other 7, by simp [Kws.WF, Expr.WF], ?_⟩
+  · exact { P0_lawful with }
+  · simp [evalCallBlockC, evalCallBlockRt, evalCList, evalRtList, evalRtKws, evalRt, constKws, gate, P0]
+
 /-! ## the concrete, source-tied instance
 
 `Conc.prims` is the transcription of `value/ops.rs` & co. that the driver runs against the real
@@ -281,6 +328,14 @@ theorem concrete_tables_are_source :
     (∀ v, Conc.prims.foldsVariant v = MJ.Gen.asConstArms.contains v) ∧
     (∀ s, Conc.prims.codegenSpecial s = MJ.Gen.codegenSpecials.contains s) :=
   ⟨fun _ => rfl, fun _ => rfl⟩
+
+/-- the guard is in the source (regenerated: `let mut static_kwargs = caller.is_none();`), so the
+    call-block theorem applies to the source-tied instance; the seeded change C04-4 makes this
+    `decide` fail -/
+theorem concrete_call_block_keeps_caller (m : Mode) (ρ : Env) (name : String) (pos : Exprs) (kws : Kws)
+    (caller : V) (hp : pos.WF) (hk : kws.WF) :
+    evalCallBlockC Conc.prims m ρ name pos kws caller = evalCallBlockRt Conc.prims m ρ name pos kws caller :=
+  call_block_static_kwargs_keep_caller Conc.prims concrete_prims_lawful (by decide) m ρ name pos kws caller hp hk
 
 /-- the full statement for the concrete model: no hypothesis about the value operations is left -/
 theorem C04_concrete (m : Mode) (ρ : Env) (e : Expr) (hw : e.WF) :
